@@ -4,6 +4,7 @@ import (
 	"encoding/json"
 	"fmt"
 	"path/filepath"
+	"sort"
 	"strings"
 
 	"verif/core"
@@ -24,16 +25,46 @@ func checkC05(cfg *core.Config) int {
 		if truth == nil {
 			continue
 		}
-		crudOK := true
-		for _, t := range truth.Tables {
-			if !t.CrudOK {
-				crudOK = false
+		// tables outside the history driver's domain (extern composite, dangling or self-referencing
+		// foreign key, id shared with a parent) and the tables whose rows need one of them
+		excluded := map[string]bool{}
+		for changed := true; changed; {
+			changed = false
+			for _, t := range truth.Tables {
+				if excluded[t.Struct] {
+					continue
+				}
+				out := !t.CrudOK
+				for _, c := range t.Columns {
+					if c.FK != nil && c.FK.Exists && excluded[c.FK.Target] {
+						out = true
+					}
+				}
+				if out {
+					excluded[t.Struct] = true
+					changed = true
+				}
 			}
 		}
 		files := pr.pl.ProgramFiles(p.ID)
-		if !crudOK {
-			rep.Count("programs-outside-crud-domain", 1) // extern composite / dangling foreign key: DDL-only programs
-			continue
+		if len(excluded) > 0 {
+			kept := *truth
+			kept.Tables = nil
+			for _, t := range truth.Tables {
+				if !excluded[t.Struct] {
+					kept.Tables = append(kept.Tables, t)
+				}
+			}
+			rep.Count("tables-outside-crud-domain", len(excluded))
+			if len(kept.Tables) == 0 {
+				rep.Count("programs-outside-crud-domain", 1)
+				continue
+			}
+			for x := range excluded {
+				kept.Excluded = append(kept.Excluded, x)
+			}
+			sort.Strings(kept.Excluded)
+			truth = &kept
 		}
 		if d, ok := pr.refused[p.ID]["gen-sqlcrud-sets"]; ok {
 			rep.Violate(core.Violation{Signature: "refused:sqlcrud:" + classifyTSError(d), Case: p.ID, Files: files, Message: fmt.Sprintf("the CRUD generator refused model file %s: %s", p.ID, d)})
